@@ -297,45 +297,56 @@ theorem matchValue_noquote (key : List Char) (c : Char) (t : List Char) (hc : c 
     exact absurd heq.1 hc
   · rfl
 
-/-- a quoted value: the scanner returns exactly the quoted text -/
-theorem matchOne_quoted (k : List Char) (ns : List Nat) (hk : k.all keyChar = true)
+/-- a quoted value followed by `;` and anything: the scanner returns exactly the quoted text -/
+theorem matchOne_quoted_gen (k : List Char) (ns : List Nat) (rest : List Char) (hk : k.all keyChar = true)
     (hns : ∀ n ∈ ns, n < 256) :
-    matchOne (k ++ '=' :: ('"' :: ns.flatMap escChars ++ ['"']) ++ [';']) =
-      some (k, '"' :: ns.flatMap escChars ++ ['"'], []) := by
-  have hs : k ++ '=' :: ('"' :: ns.flatMap escChars ++ ['"']) ++ [';'] =
-      k ++ '=' :: ('"' :: (ns.flatMap escChars ++ '"' :: [';'])) := by simp
+    matchOne (k ++ '=' :: ('"' :: ns.flatMap escChars ++ ['"']) ++ ';' :: rest) =
+      some (k, '"' :: ns.flatMap escChars ++ ['"'], rest.dropWhile Py.isReSpaceA) := by
+  have hs : k ++ '=' :: ('"' :: ns.flatMap escChars ++ ['"']) ++ ';' :: rest =
+      k ++ '=' :: ('"' :: (ns.flatMap escChars ++ '"' :: ';' :: rest)) := by simp
   rw [hs]
-  obtain ⟨h1, h2⟩ := takeWhile_key k ('"' :: (ns.flatMap escChars ++ '"' :: [';'])) hk '=' (by decide)
+  obtain ⟨h1, h2⟩ := takeWhile_key k ('"' :: (ns.flatMap escChars ++ '"' :: ';' :: rest)) hk '=' (by decide)
   have hq : Py.isReSpaceA '"' = false := by decide
   have hsemi : Py.isReSpaceA ';' = false := by decide
   unfold matchOne
   rw [h1, h2, matchRest_eq, dropWhile_head hq,
-    matchValue_quoted k _ _ [] _ (quotedBody_flatMap ns hns [';']) (dropWhile_head hsemi)]
-  rfl
+    matchValue_quoted k _ _ rest _ (quotedBody_flatMap ns hns (';' :: rest)) (dropWhile_head hsemi)]
+
+theorem matchOne_quoted (k : List Char) (ns : List Nat) (hk : k.all keyChar = true)
+    (hns : ∀ n ∈ ns, n < 256) :
+    matchOne (k ++ '=' :: ('"' :: ns.flatMap escChars ++ ['"']) ++ [';']) =
+      some (k, '"' :: ns.flatMap escChars ++ ['"'], []) := by
+  simpa using matchOne_quoted_gen k ns [] hk hns
 
 /-- an unquoted value without `;`, not starting with `"` or white space, not ending in white space -/
+theorem matchOne_plain_gen (k v rest : List Char) (hk : k.all keyChar = true)
+    (hsemi : ∀ c ∈ v, c ≠ ';')
+    (hhead : ∀ c, v.head? = some c → c ≠ '"' ∧ Py.isReSpaceA c = false)
+    (hlast : ∀ c, v.getLast? = some c → Py.isReSpaceA c = false) :
+    matchOne (k ++ '=' :: v ++ ';' :: rest) = some (k, v, rest.dropWhile Py.isReSpaceA) := by
+  have hs : k ++ '=' :: v ++ ';' :: rest = k ++ '=' :: (v ++ ';' :: rest) := by simp
+  rw [hs]
+  obtain ⟨h1, h2⟩ := takeWhile_key k (v ++ ';' :: rest) hk '=' (by decide)
+  obtain ⟨h3, h4⟩ := takeWhile_noSemi v rest hsemi
+  have hdw : (v ++ ';' :: rest).dropWhile Py.isReSpaceA = v ++ ';' :: rest := by
+    cases v with
+    | nil => exact dropWhile_head (by decide)
+    | cons c t => exact dropWhile_head (hhead c rfl).2
+  have halt : alt2 k (v ++ ';' :: rest) = some (k, v, rest.dropWhile Py.isReSpaceA) := by
+    unfold alt2
+    rw [h4, h3, rstripBy_id _ _ hlast]
+  unfold matchOne
+  rw [h1, h2, matchRest_eq, hdw, ← halt]
+  cases v with
+  | nil => exact matchValue_noquote k ';' rest (by decide)
+  | cons c t => exact matchValue_noquote k c _ (hhead c rfl).1
+
 theorem matchOne_plain (k v : List Char) (hk : k.all keyChar = true)
     (hsemi : ∀ c ∈ v, c ≠ ';')
     (hhead : ∀ c, v.head? = some c → c ≠ '"' ∧ Py.isReSpaceA c = false)
     (hlast : ∀ c, v.getLast? = some c → Py.isReSpaceA c = false) :
     matchOne (k ++ '=' :: v ++ [';']) = some (k, v, []) := by
-  have hs : k ++ '=' :: v ++ [';'] = k ++ '=' :: (v ++ [';']) := by simp
-  rw [hs]
-  obtain ⟨h1, h2⟩ := takeWhile_key k (v ++ [';']) hk '=' (by decide)
-  obtain ⟨h3, h4⟩ := takeWhile_noSemi v [] hsemi
-  have hdw : (v ++ [';']).dropWhile Py.isReSpaceA = v ++ [';'] := by
-    cases v with
-    | nil => exact dropWhile_head (by decide)
-    | cons c t => exact dropWhile_head (hhead c rfl).2
-  have halt : alt2 k (v ++ [';']) = some (k, v, []) := by
-    unfold alt2
-    rw [h4, h3, rstripBy_id _ _ hlast]
-    rfl
-  unfold matchOne
-  rw [h1, h2, matchRest_eq, hdw, ← halt]
-  cases v with
-  | nil => exact matchValue_noquote k ';' [] (by decide)
-  | cons c t => exact matchValue_noquote k c _ (hhead c rfl).1
+  simpa using matchOne_plain_gen k v [] hk hsemi hhead hlast
 
 /-! ### putting it together -/
 
@@ -399,5 +410,147 @@ theorem findAll_single (s k val : List Char) (h : matchOne s = some (k, val, [])
   cases s with
   | nil => exact absurd rfl hs
   | cons c t => simp [findAll, h]
+
+/-! ### one pair, then a whole `Cookie:` header of pairs joined by `; ` -/
+
+/-- Names for which the round trip is claimed: non-empty, without `=`, `;` or white space
+(a superset of RFC 6265 tokens). -/
+def ValidKey (k : List Char) : Prop := k ≠ [] ∧ k.all keyChar = true
+
+theorem keyChar_notSpace (k : List Char) (hk : k.all keyChar = true) (c : Char) (hc : c ∈ k) :
+    Py.isSpace c = false := by
+  have := List.all_eq_true.mp hk c hc
+  simp only [keyChar, Bool.and_eq_true, Bool.not_eq_true'] at this
+  exact this.2
+
+theorem reSpace_isSpace (c : Char) (h : Py.isSpace c = false) : Py.isReSpaceA c = false := by
+  simp only [Py.isSpace, Py.isReSpaceA, Bool.or_eq_false_iff, Bool.and_eq_false_iff,
+    decide_eq_false_iff_not, beq_eq_false_iff_ne] at *
+  omega
+
+theorem strip_key (k : List Char) (hk : k.all keyChar = true) : Py.strip k = k :=
+  strip_id k (fun c hc => keyChar_notSpace k hk c (List.mem_of_mem_head? hc))
+    (fun c hc => keyChar_notSpace k hk c (List.mem_of_getLast? hc))
+
+/-- everything `parse_cookie` does to one emitted pair -/
+theorem pair_facts (k v hv : List Char) (hk : ValidKey k) (h : dumpValue v = .ok hv) :
+    (∀ rest, matchOne (k ++ '=' :: hv ++ ';' :: rest) = some (k, hv, rest.dropWhile Py.isReSpaceA)) ∧
+    unquoteValue (Py.strip hv) = v := by
+  obtain ⟨_, hkc⟩ := hk
+  by_cases hq : v.all noQuoteChar = true
+  · have hdv : dumpValue v = .ok v := by simp [dumpValue, hq]
+    rw [hdv] at h
+    obtain rfl := Except.ok.inj h
+    have hf := fun c hc => noQuoteChar_facts c (List.all_eq_true.mp hq c hc)
+    refine ⟨fun rest => ?_, ?_⟩
+    · exact matchOne_plain_gen k v rest hkc (fun c hc => (hf c hc).2.2.2.1)
+        (fun c hc => ⟨(hf c (List.mem_of_mem_head? hc)).2.2.2.2, (hf c (List.mem_of_mem_head? hc)).2.2.1⟩)
+        (fun c hc => (hf c (List.mem_of_getLast? hc)).2.2.1)
+    · rw [strip_id v (fun c hc => (hf c (List.mem_of_mem_head? hc)).2.1)
+        (fun c hc => (hf c (List.mem_of_getLast? hc)).2.1)]
+      exact unquote_plain v (fun c hc => (hf c hc).2.2.2.2)
+  · have hq' : v.all noQuoteChar = false := by simpa using hq
+    rw [dumpValue_quoted v hq'] at h
+    obtain rfl := Except.ok.inj h
+    have hns : ∀ n ∈ (utf8Enc v).map UInt8.toNat, n < 256 := by
+      intro n hn
+      simp only [List.mem_map] at hn
+      obtain ⟨b, _, rfl⟩ := hn
+      exact b.toNat_lt
+    refine ⟨fun rest => matchOne_quoted_gen k _ rest hkc hns, ?_⟩
+    have hvstrip : Py.strip ('"' :: ((utf8Enc v).map UInt8.toNat).flatMap escChars ++ ['"']) =
+        '"' :: ((utf8Enc v).map UInt8.toNat).flatMap escChars ++ ['"'] := by
+      apply strip_id
+      · intro c hc
+        simp only [List.cons_append, List.head?_cons, Option.some.injEq] at hc
+        subst hc; decide
+      · intro c hc
+        have : ('"' :: (((utf8Enc v).map UInt8.toNat).flatMap escChars ++ ['"'])).getLast? = some '"' := by
+          rw [← List.cons_append, List.getLast?_append]; simp
+        simp only [List.cons_append] at hc
+        rw [this] at hc
+        obtain rfl := Option.some.inj hc
+        decide
+    rw [hvstrip, unquote_quoted, Py.decodeReplace_utf8Enc]
+
+/-- the `Cookie:` request header a client sends for a jar: pairs joined by `; ` -/
+def jarText : List (List Char × List Char) → List Char
+  | [] => []
+  | [(k, hv)] => k ++ '=' :: hv
+  | (k, hv) :: p :: t => k ++ '=' :: hv ++ ';' :: ' ' :: jarText (p :: t)
+
+/-- what the scanner needs to know about one raw pair -/
+def ScanGood (p : List Char × List Char) : Prop :=
+  ValidKey p.1 ∧
+    ∀ rest, matchOne (p.1 ++ '=' :: p.2 ++ ';' :: rest) = some (p.1, p.2, rest.dropWhile Py.isReSpaceA)
+
+theorem findAll_nil (fuel : Nat) : findAll fuel [] = [] := by cases fuel <;> rfl
+
+theorem jarText_head (p : List Char × List Char) (t : List (List Char × List Char)) (hp : ScanGood p)
+    (tail : List Char) :
+    (jarText (p :: t) ++ tail).dropWhile Py.isReSpaceA = jarText (p :: t) ++ tail := by
+  obtain ⟨⟨hne, hkc⟩, _⟩ := hp
+  obtain ⟨k, hv⟩ := p
+  cases k with
+  | nil => exact absurd rfl hne
+  | cons c kt =>
+    have hc : Py.isReSpaceA c = false :=
+      reSpace_isSpace c (keyChar_notSpace (c :: kt) hkc c (by simp))
+    cases t <;> exact dropWhile_head hc
+
+theorem findAll_jar (l : List (List Char × List Char)) (hne : l ≠ []) (hg : ∀ p ∈ l, ScanGood p)
+    (fuel : Nat) (hf : l.length ≤ fuel) : findAll fuel (jarText l ++ [';']) = l := by
+  induction l generalizing fuel with
+  | nil => exact absurd rfl hne
+  | cons p t ih =>
+    obtain ⟨k, hv⟩ := p
+    have hp := hg (k, hv) (by simp)
+    cases fuel with
+    | zero => simp at hf
+    | succ f =>
+      cases t with
+      | nil =>
+        have hm := hp.2 []
+        have hs : jarText [(k, hv)] ++ [';'] = k ++ '=' :: hv ++ ';' :: [] := by simp [jarText]
+        rw [hs]
+        have hne' : k ++ '=' :: hv ++ ';' :: [] ≠ [] := by cases k <;> simp
+        cases hcs : k ++ '=' :: hv ++ ';' :: [] with
+        | nil => exact absurd hcs hne'
+        | cons c s' =>
+          rw [← hcs]
+          simp only [findAll, hcs]
+          rw [← hcs, hm]
+          simp [List.dropWhile, findAll_nil]
+      | cons p2 t2 =>
+        have hs : jarText ((k, hv) :: p2 :: t2) ++ [';'] =
+            k ++ '=' :: hv ++ ';' :: (' ' :: (jarText (p2 :: t2) ++ [';'])) := by simp [jarText]
+        rw [hs]
+        have hm := hp.2 (' ' :: (jarText (p2 :: t2) ++ [';']))
+        have hsp : Py.isReSpaceA ' ' = true := by decide
+        have hdw : (' ' :: (jarText (p2 :: t2) ++ [';'])).dropWhile Py.isReSpaceA =
+            jarText (p2 :: t2) ++ [';'] := by
+          rw [List.dropWhile_cons_of_pos hsp]
+          exact jarText_head p2 t2 (hg p2 (by simp)) [';']
+        rw [hdw] at hm
+        have hne' : k ++ '=' :: hv ++ ';' :: (' ' :: (jarText (p2 :: t2) ++ [';'])) ≠ [] := by
+          cases k <;> simp
+        cases hcs : k ++ '=' :: hv ++ ';' :: (' ' :: (jarText (p2 :: t2) ++ [';'])) with
+        | nil => exact absurd hcs hne'
+        | cons c s' =>
+          simp only [findAll]
+          rw [← hcs, hm]
+          simp only [List.cons.injEq, true_and]
+          exact ih (by simp) (fun q hq => hg q (by simp [hq])) f (by simp at hf ⊢; omega)
+
+theorem jarText_length (l : List (List Char × List Char)) : l.length ≤ (jarText l).length + 1 := by
+  induction l with
+  | nil => simp
+  | cons p t ih =>
+    obtain ⟨k, hv⟩ := p
+    cases t with
+    | nil => simp [jarText]
+    | cons p2 t2 =>
+      simp only [jarText, List.length_cons, List.length_append] at ih ⊢
+      omega
 
 end Wz.Cookie
